@@ -134,10 +134,12 @@ class InotifyEmitter(EventEmitter):
             logger.error("InotifyEmitter.queue_events() called when the thread is inactive")
             return
         with self._lock:
-            if self._inotify is None:
+            # on_thread_stop() may clear the attribute at any time: work on a local reference.
+            inotify = self._inotify
+            if inotify is None:
                 logger.error("InotifyEmitter.queue_events() called when the thread is inactive")
                 return
-            event = self._inotify.read_event()
+            event = inotify.read_event()
             if event is None:
                 return
 
